@@ -241,7 +241,7 @@ func runDgehrd(t *vlib.T, n, ilo, ihi int, p prof, f family, ldx int, lw string)
 				}
 				ctx := fmt.Sprintf("Dormhr side=%c trans=%c lwork=%s", side, trans, olw)
 				cm := intGeneral(cr, cc, 3, lcgFor(13, cr, cc))
-				ldc := ldOf(cc, ldx)
+				ldc := ldOf(cc, off(ldx, 1))
 				cs := fromM(cm, ldc).snap()
 				op := q
 				if trans == blas.Trans {
@@ -421,6 +421,7 @@ func runDhseqr(t *vlib.T, n int, p prof, f family, bal lapack.BalanceJob, ldx in
 	a0 := f.gen(n, n)
 	dim := fmax(n)
 	ld := ldOf(n, ldx)
+	ldzz := ldOf(n, off(ldx, 1)) // z has its own leading dimension
 	// balance (permutation only: an orthogonal similarity), reduce, generate Q
 	bs := fromM(a0, ld).snap()
 	scale := poisoned(n)
@@ -453,11 +454,11 @@ func runDhseqr(t *vlib.T, n int, p prof, f family, bal lapack.BalanceJob, ldx in
 			ldz := 1
 			switch compz {
 			case lapack.SchurOrig:
-				zs = fromM(q, ld).snap()
-				zd, ldz = zs.d, ld
+				zs = fromM(q, ldzz).snap()
+				zd, ldz = zs.d, ldzz
 			case lapack.SchurHess:
-				zs = newS(n, n, ld).snap()
-				zd, ldz = zs.d, ld
+				zs = newS(n, n, ldzz).snap()
+				zd, ldz = zs.d, ldzz
 			}
 			wr, wi := poisoned(n), poisoned(n)
 			lwork := max(1, n)
@@ -582,7 +583,11 @@ func genDgeev(g *vlib.G) {
 	}
 	for _, c := range plan {
 		for _, f := range c.fams {
-			for _, ld := range [][3]int{{0, 0, 0}, {2, 2, 2}} {
+			lds := [][3]int{{0, 0, 0}, {2, 1, 3}} // (lda, ldvl, ldvr) paddings, all different
+			if g.Thorough() {
+				lds = append(lds, [3]int{2, 2, 2}, [3]int{0, 2, 0})
+			}
+			for _, ld := range lds {
 				for _, lw := range []string{"min", "query", "big"} {
 					c, f, ld, lw := c, f, ld, lw
 					if g.Stopped() {
